@@ -33,7 +33,12 @@ def oracle(c):
         if regs:
             kw["rules_set_registry"], kw["schema_registry"] = regs
             g1, g2 = snapshot(dict(regs[0].all())), snapshot(dict(regs[1].all()))
-        v = pool.PoolValidator(copy.deepcopy(schema), **kw)
+        try:
+            v = pool.PoolValidator(copy.deepcopy(schema), **kw)
+        except cerberus.SchemaError:
+            raise
+        except Exception:
+            raise _nfamily._Skip("constructor-raised")        # C03 / C04 judge that; nothing is owned yet
         if (len(repr(c["document"])) + len(api)) % 2:
             # a validator that was used before (same document, normalization on) owns no more than a fresh one
             try:
